@@ -154,7 +154,7 @@ def _work_batch(args):
                 else:
                     def attempt(seed):
                         s = z3.Solver()
-                        s.set("timeout", timeout_ms)
+                        s.set("timeout", 4000 if ob.kind.startswith("roundtrip") else timeout_ms)
                         if seed:
                             s.set("random_seed", seed)
                         for a in ob.assumptions:
@@ -177,7 +177,7 @@ def _work_batch(args):
                         return r, None
                     r, m = attempt(0)
                     tries = 0
-                    while r == z3.unknown and tries < 4:
+                    while r == z3.unknown and tries < (7 if ob.kind.startswith("roundtrip") else 4):
                         tries += 1
                         r, m = attempt(tries * 17)
                     status = str(r)
